@@ -327,4 +327,10 @@ def run(ctx):
     # component lists - a component left out of `components()` (the index of a Property) lets a node fold while that operand is
     # still pending, in one order of application and not in another (rule T1 of C06, restricted to the component lists)
     c06.t1(F, res, only={"components", "try_map_components"}, rule="T1")
+    # every value-rebuilding traversal method (apply_* / reduce) feeds field f of the rebuilt node from self.f: a swap of two
+    # same-typed sections (`mints: self.burns.reduce()?`) survives type checking, breaks idempotence (reduce twice = swap back)
+    # and makes the result depend on how many reductions a schedule interleaves (rule shared with C01)
+    from . import c01
+    res.rule("ATTRIB", "a rebuilt IR node takes each field from the same field of self (no swapped / merged sections)")
+    c01.self_rebuilds(F, res)
     return res
